@@ -337,13 +337,17 @@ macro_rules! with_env {
             6 => $f::<bourse_de::MarketEnv<3, 5>>($($arg),*),
             7 => $f::<bourse_de::MarketEnv<4, 2>>($($arg),*),
             8 => $f::<bourse_de::MarketEnv<2, 10>>($($arg),*),
-            _ => $f::<bourse_de::MarketEnv<4, 10>>($($arg),*),
+            9 => $f::<bourse_de::MarketEnv<4, 10>>($($arg),*),
+            10 => $f::<bourse_de::MarketEnv<12, 2>>($($arg),*),
+            _ => $f::<bourse_de::MarketEnv<66, 1>>($($arg),*),
         }
     };
 }
-pub const N_ENV_TYPES: usize = 10;
-pub const ENV_ASSETS: [usize; N_ENV_TYPES] = [1, 1, 1, 1, 1, 2, 3, 4, 2, 4];
-pub const ENV_IS_MULTI: [bool; N_ENV_TYPES] = [false, false, false, false, true, true, true, true, true, true];
+pub const N_ENV_TYPES: usize = 12;
+pub const ENV_ASSETS: [usize; N_ENV_TYPES] = [1, 1, 1, 1, 1, 2, 3, 4, 2, 4, 12, 66];
+/// wide markets (more assets than levels, more than 10 / 64 assets): used for a small share of the multi-asset sessions
+pub const WIDE_ENV_TYPES: [usize; 2] = [10, 11];
+pub const ENV_IS_MULTI: [bool; N_ENV_TYPES] = [false, false, false, false, true, true, true, true, true, true, true, true];
 
 // ------------------------------------------------------------------------------------------------
 // Shadow: plain real order books driven by the harness next to an environment
